@@ -35,6 +35,21 @@ def run_crosshair(mod, fn, timeout, twin):
     from crosshair.fnutil import FunctionInfo
     from crosshair.options import AnalysisOptionSet, DEFAULT_OPTIONS, AnalysisKind
 
+    # CrossHair may "short-circuit" a call to any function that has a return annotation (its own patched
+    # repr() among them): with some probability the call is replaced by a fresh symbolic value that is
+    # reconciled at the end of the path, and paths that fail to reconcile are abandoned and retried.  That
+    # makes exploration of code that calls repr() non-exhaustive.  Always call into the real function.
+    import crosshair.core as _cc
+    if not getattr(_cc, '_vp_no_shortcircuit', False):
+        _orig_consider = _cc.consider_shortcircuit
+
+        def _consider(fn, sig, bound, subconditions, allow_interpretation):
+            if allow_interpretation:
+                return None
+            return _orig_consider(fn, sig, bound, subconditions, allow_interpretation)
+        _cc.consider_shortcircuit = _consider
+        _cc._vp_no_shortcircuit = True
+
     optset = AnalysisOptionSet(per_condition_timeout=float(timeout),
                                report_all=True,
                                analysis_kind=[AnalysisKind.PEP316])
